@@ -135,6 +135,17 @@ def corpus(n, seed):
         msgs.append({"name": f"Nz{si}", "fields": [
             {"name": "z", "tag": 1, "label": "map", "ty": {"map": ["int32", s("double")]}, "oneof": "", "packed": False, "packed_opt": None},
             {"name": "y", "tag": 2, "label": "map", "ty": {"map": ["string", s("float")]}, "oneof": "", "packed": False, "packed_opt": None}]})
+        # payloads of 128 bytes and more (two-byte length prefixes): embedded, repeated and map-valued messages, packed fields
+        msgs.append({"name": f"BigLeaf{si}", "fields": [field("s", 1, lab, s("string"), syntax=syntax), field("b", 2, lab, s("bytes"), syntax=syntax),
+                                                      field("n", 3, lab, s("int32"), syntax=syntax)]})
+        msgs.append({"name": f"Big{si}", "fields": [
+            field("items", 1, "repeated", {"msg": f"BigLeaf{si}"}, syntax=syntax),
+            field("one", 2, lab, {"msg": f"BigLeaf{si}"}, syntax=syntax),
+            {"name": "m", "tag": 3, "label": "map", "ty": {"map": ["string", {"msg": f"BigLeaf{si}"}]}, "oneof": "", "packed": False, "packed_opt": None},
+            field("pk", 4, "repeated", s("fixed64"), packed_opt=True, syntax=syntax),
+            field("pv", 5, "repeated", s("sint32"), packed_opt=True, syntax=syntax),
+            field("long", 16, lab, s("string"), syntax=syntax),
+            field("tail", 17, lab, s("bool"), syntax=syntax)]})
         for m in msgs:
             m["syntax"] = syntax
         schemas.append({"name": f"p{si}", "syntax": syntax, "package": "", "enums": enums, "messages": msgs})
